@@ -101,7 +101,7 @@ m("c14-pv-from-iff1",["C14"],"op_load8.go","\tif cpu.IFF2 {\n\t\tor |= maskPV","
 m("c14-ld-i-a-also-r",["C14"],"op_load8.go","func oopLDIA(cpu *CPU) {\n\tcpu.IR.Hi = cpu.AF.Hi","func oopLDIA(cpu *CPU) {\n\tcpu.IR.Hi = cpu.AF.Hi\n\tcpu.IR.Lo = cpu.AF.Hi")
 m("c14-ld-a-r-clears-c",["C14"],"op_load8.go","func (cpu *CPU) updateFlagIR(d uint8) {\n\tvar nand uint8 = maskS53 | maskZ | maskH | maskPV | maskN","func (cpu *CPU) updateFlagIR(d uint8) {\n\tvar nand uint8 = maskS53 | maskZ | maskH | maskPV | maskN | maskC")
 m("c14-nmi-bumps-r",["C14"],"cpu.go","\t\tcpu.PC = 0x0066\n","\t\tcpu.PC = 0x0066\n\t\tcpu.IR.Lo++\n",note="R written outside instruction execution (who-may-write)")
-m("c14-reset-helper-writes-ir",["C14","C10"],"z80.go","","// ResetRefresh clears the refresh counter.\nfunc (cpu *CPU) ResetRefresh() { cpu.IR.Lo = 0 }\n",note="an exported helper that lets I/R change other than through LD")
+m("c14-reset-helper-writes-ir",["C14"],"z80.go","","// ResetRefresh clears the refresh counter.\nfunc (cpu *CPU) ResetRefresh() { cpu.IR.Lo = 0 }\n",note="an exported helper that lets I/R change other than through LD")
 m("c14-r-update-refactor",["C14","C01"],"cpu.go","cpu.IR.Lo = rc&0x80 | (rc+1)&0x7f","cpu.IR.Lo = rc&0x80 + (rc&0x7f+1)&0x7f",expect="silent",note="equivalent refresh increment")
 
 # ---- C08
@@ -124,6 +124,24 @@ m("c13-return-nil-on-cancel",["C13","C08"],"cpu.go","\t\t\treturn ctxErr\n","\t\
 m("c13-wait-on-parent",["C13"],"cpu.go","\t\t<-ctx2.Done()","\t\t<-ctx.Done()",note="leak when the parent context is never cancelled")
 m("c13-check-every-256-steps",["C13","C08"],"cpu.go","\tfor {\n\t\tif atomic.LoadInt32(&canceled) != 0 {","\tfor n := 0; ; n++ {\n\t\tif n&0xff == 0 && atomic.LoadInt32(&canceled) != 0 {")
 m("c13-poll-ctx-err-refactor",["C13","C08"],"cpu.go","\tvar ctxErr error\n\tvar canceled int32\n\tctx2, cancel := context.WithCancel(ctx)\n\tdefer cancel()\n\tgo func() {\n\t\t<-ctx2.Done()\n\t\tctxErr = ctx.Err()\n\t\tatomic.StoreInt32(&canceled, 1)\n\t}()\n\n\tcpu.HALT = false\n\tfor {\n\t\tif atomic.LoadInt32(&canceled) != 0 {\n\t\t\treturn ctxErr\n\t\t}","\tvar _ = atomic.LoadInt32\n\tcpu.HALT = false\n\tfor {\n\t\tif err := ctx.Err(); err != nil {\n\t\t\treturn err\n\t\t}",expect="silent",note="synchronous polling of ctx.Err(): no goroutine, property holds")
+
+# ---- C10
+m("c10-lazy-parity-table",["C10","C02"],"accum.go","func (cpu *CPU) updateFlagBitop(r uint8, carry uint8) {\n","var parityTable []uint8\n\nfunc parityOf(r uint8) uint8 {\n\tif parityTable == nil {\n\t\tt := make([]uint8, 256)\n\t\tfor i := range t {\n\t\t\tt[i] = (uint8(bits.OnesCount8(uint8(i))%2) - 1) & maskPV\n\t\t}\n\t\tparityTable = t\n\t}\n\treturn parityTable[r]\n}\n\nfunc (cpu *CPU) updateFlagBitop(r uint8, carry uint8) {\n\t_ = parityOf\n",note="package-level table filled on first use: shared mutable state (races between CPUs) - here not even called from Step")
+m("c10-lazy-table-used",["C10"],"accum.go","\tor |= (uint8(bits.OnesCount8(r)%2) - 1) & maskPV\n\tor |= carry & maskC","\tif parityTab == nil {\n\t\tt := make([]uint8, 256)\n\t\tfor i := range t {\n\t\t\tt[i] = (uint8(bits.OnesCount8(uint8(i))%2) - 1) & maskPV\n\t\t}\n\t\tparityTab = t\n\t}\n\tor |= parityTab[r]\n\tor |= carry & maskC",edits=[{"file":"accum.go","old":"func (cpu *CPU) updateFlagBitop(","new":"var parityTab []uint8\n\nfunc (cpu *CPU) updateFlagBitop("}],note="same results, but CPUs on different goroutines race on the table")
+m("c10-hidden-field",["C10","C01"],"z80.go","\t// HALT indicates whether the last Run() is terminated with HALT op.\n\tHALT bool\n","\t// HALT indicates whether the last Run() is terminated with HALT op.\n\tHALT bool\n\n\tlastOp uint8\n",edits=[{"file":"op_ctrl.go","old":"func oopNOP(cpu *CPU) {\n","new":"func oopNOP(cpu *CPU) {\n\tif cpu.lastOp == 0x76 {\n\t\tcpu.IR.Lo ^= 0x80\n\t}\n"},{"file":"op_ctrl.go","old":"\tcpu.PC--\n\tcpu.HALT = true","new":"\tcpu.PC--\n\tcpu.HALT = true\n\tcpu.lastOp = 0x76"}],note="unexported field carried between Steps: not captured by States+memory")
+m("c10-states-pointer-field",["C10"],"z80.go","\tIFF1 bool\n\tIFF2 bool\n\tIM   int\n}","\tIFF1 bool\n\tIFF2 bool\n\tIM   int\n\n\tShadow *GPR\n}",note="a copy of States is no longer a snapshot")
+m("c10-global-counter",["C10"],"cpu.go","func (cpu *CPU) Step() {\n","var stepCount uint64\n\nfunc (cpu *CPU) Step() {\n\tstepCount++\n",note="package-level counter written by every Step: CPUs on different goroutines race")
+m("c10-time-dependent",["C10","C01"],"op_load8.go","func oopLDAR(cpu *CPU) {\n\td := cpu.IR.Lo","func oopLDAR(cpu *CPU) {\n\td := cpu.IR.Lo ^ uint8(time.Now().UnixNano()&0)",edits=[{"file":"op_load8.go","old":"package z80\n","new":"package z80\n\nimport \"time\"\n"}],note="call of time.Now below Step")
+m("c10-init-table-refactor",["C10"],"flag.go","type Flag uint8\n","type Flag uint8\n\nvar flagNames = map[Flag]string{FlagC: \"C\", FlagZ: \"Z\"}\n\n// Name returns a flag's name.\nfunc (f Flag) Name() string { return flagNames[f] }\n",expect="silent",note="a package-level table written only by package initialisation and not used below Step")
+# ---- C12
+m("c12-dumbmemory-set-off-by-one",["C12","C15"],"memio.go","func (dm DumbMemory) Set(addr uint16, value uint8) {\n\tif int(addr) >= len(dm) {","func (dm DumbMemory) Set(addr uint16, value uint8) {\n\tif int(addr) > len(dm) {")
+m("c12-im2-len-guard-removed",["C12"],"cpu.go","\tcase 2:\n\t\t// Interrupt with IM 2\n\t\tif len(cpu.Interrupt.Data) > 0 {","\tcase 2:\n\t\t// Interrupt with IM 2\n\t\tif cpu.Interrupt.Data != nil {")
+m("c12-default-arm-loops",["C12","C09"],"operation.go","\tdefault:\n\t\tcpu.invalidCode(c0)\n","\tdefault:\n\t\tfor c0 == 0xdd {\n\t\t\tc0 = cpu.fetchM1()\n\t\t}\n\t\tcpu.invalidCode(c0)\n")
+m("c12-invalid-ed-rewinds",["C12","C01"],"operation.go","\t\tdefault:\n\t\t\tcpu.invalidCode(c0, c1)\n\t\t}\n\n\tcase 0xfd:","\t\tdefault:\n\t\t\tcpu.invalidCode(c0, c1)\n\t\t\tcpu.PC--\n\t\t}\n\n\tcase 0xfd:",note="unsupported ED opcode is not consumed: its second byte is executed again")
+m("c12-io-nil-check-dropped",["C12"],"cpu.go","func (cpu *CPU) ioOut(addr uint8, value uint8) {\n\tif cpu.IO == nil {\n\t\treturn\n\t}\n","func (cpu *CPU) ioOut(addr uint8, value uint8) {\n")
+m("c12-retn-handler-called-after-pop",["C12"],"op_callret.go","func oopRETN(cpu *CPU) {\n\tif cpu.RETNHandler != nil {\n\t\tcpu.RETNHandler.RETNHandle()\n\t}\n\n\tcpu.PC = cpu.readU16(cpu.SP)","func oopRETN(cpu *CPU) {\n\tif cpu.RETNHandler == nil {\n\t\tcpu.PC = cpu.readU16(cpu.SP)\n\t\tcpu.SP += 2\n\t\tcpu.IFF1 = cpu.IFF2\n\t\treturn\n\t}\n\tcpu.PC = cpu.readU16(cpu.SP)\n\tcpu.RETNHandler.RETNHandle()\n",note="handler invoked after memory callbacks ran since the nil test")
+m("c12-im0-overlay-end-off-by-one",["C12"],"cpu.go","\t\tend:   pc + uint16(len(d)-1),","\t\tend:   pc + uint16(len(d)),",note="overlay range one byte too long: data[len] is read when the instruction fetches one more byte")
+m("c12-dumbio-refactor",["C12","C15"],"memio.go","func (dio DumbIO) In(addr uint8) uint8 {\n\tif int(addr) >= len(dio) {\n\t\treturn 0\n\t}\n\treturn dio[addr]","func (dio DumbIO) In(addr uint8) uint8 {\n\tif int(addr) < len(dio) {\n\t\treturn dio[addr]\n\t}\n\treturn 0",expect="silent",note="guard inverted, same behaviour")
 
 json.dump(M,open("controls.json","w"),indent=1)
 print(len(M),"controls")
